@@ -211,6 +211,8 @@ class C08(E1Check):
                     else:
                         _, action, body = item.split(":")
                         service, ta = make_service(lbl, action, body)
+                        if i % 2 == 1:
+                            service = (lambda svc: (lambda: svc()))(service)  # a plain callable returning the coroutine
                         if program.get("inner"):
                             # started on the owner while a deeper, short-lived context is current
                             async with Context():
